@@ -229,6 +229,29 @@ def check(w, case, value_pool):
                         fail('query-exception:' + exc_bucket(e), repr(e))
                     if got != want:
                         fail('query-spelling-other-result', '%s(%s=%r) gave %r want %r' % (form, sp, v, got, want))
+        # one filter naming the attribute twice, under two spellings: a conjunction like any other
+        sps = spellings(n[which])
+        if len(sps) >= 2 and not any(w.model[k][n[which]] == UNSET for k in range(len(w.insts))):
+            for sp1, sp2 in ((sps[0], sps[-1]), (sps[-1], sps[0]), (sps[0], sps[1])):
+                if sp1 == sp2:
+                    continue
+                for v1 in value_pool:
+                    for v2 in value_pool:
+                        want = [k for k in range(len(w.insts)) if w.model[k][n[which]] == v1 and w.model[k][n[which]] == v2]
+                        for form in ('where_eq', 'dict', 'two'):
+                            try:
+                                if form == 'two':
+                                    got = w.m.select_many(n['cls'], xtuml.where_eq(**{sp1: v1}), xtuml.where_eq(**{sp2: v2}))
+                                else:
+                                    q = xtuml.where_eq(**{sp1: v1, sp2: v2}) if form == 'where_eq' else {sp1: v1, sp2: v2}
+                                    got = w.m.select_many(n['cls'], q)
+                                got = [_index(w, x) for x in got]
+                            except Exception as e:
+                                fail('query-exception:' + exc_bucket(e), repr(e))
+                            if got != want:
+                                fail('query-two-spellings-other-result', '%s(%s=%r, %s=%r) gave %r want %r' % (form, sp1, v1, sp2, v2, got, want))
+    for which in ('plain', 'ident'):
+        for sp in spellings(n[which]):
             if not any(w.model[k][n[which]] == UNSET for k in range(len(w.insts))):
                 got = [_index(w, x) for x in w.m.select_many(n['cls'], xtuml.order_by(sp))]
                 want = sorted(range(len(w.insts)), key=lambda k: w.model[k][n[which]])
